@@ -201,10 +201,12 @@ def loop_discipline(ctx):
                 bad_arg.append(f"[{tag}] evaluation #{k} of the induced potential is handed {cur}")
         res = None
         if t.outcome[0] == "return":
+            from ..update_trace import result_fields
             v = t.outcome[1]
-            if not (isinstance(v, SO) and v.parts and v.parts[0] == "call" and v.parts[1] == "SolverResult"):
+            rf = result_fields(v)
+            if rf is None:
                 raise AnalysisError(f"update() does not return SolverResult(...) in the model ({render(v)[:60]})")
-            res = [render(x) for x in v.parts[2]]
+            res = [render(x) for x in rf]
         if not sc["screening"]:
             if t.outcome[0] != "return" or len(eulers) != 1 or evals:
                 bad_off.append(f"[{tag}] {len(eulers)} psi updates, {len(evals)} evaluations of the induced potential, outcome {t.outcome[0]}")
